@@ -166,6 +166,8 @@ pub struct GenCtx<'a> {
     /// indices into `families`, grouped by family type (a, b, c, ...): a family is drawn by
     /// type first, so that rare types (big results, spellings) weigh as much as common ones
     pub families_by_type: Vec<Vec<usize>>,
+    /// families that contain a state pump (used only by the deep_pump mode)
+    pub pump_families: Vec<usize>,
 }
 
 impl<'a> GenCtx<'a> {
@@ -181,6 +183,14 @@ impl<'a> GenCtx<'a> {
         let mut fam_map: std::collections::BTreeMap<u32, Vec<u32>> = std::collections::BTreeMap::new();
         for (i, p) in pool.ops.iter().enumerate() {
             if refs[i].status != "ok" || refs[i].outcome.is_none() {
+                continue;
+            }
+            if matches!(p.op, Op::Pump { .. }) {
+                // state pumps cost a second each: they are reached only through their family
+                // (deep_pump mode), never through the general op selection
+                if p.family > 0 {
+                    fam_map.entry(p.family).or_default().push(i as u32);
+                }
                 continue;
             }
             usable.push(i as u32);
@@ -222,9 +232,11 @@ impl<'a> GenCtx<'a> {
                 families.push(members);
             }
         }
+        // pump families are expensive (tens of thousands of calls): only the deep_pump mode uses them
+        let pump_families: Vec<usize> = by_type.remove(&b'n').unwrap_or_default();
         let families_by_type: Vec<Vec<usize>> = by_type.into_values().collect();
         let small_families: Vec<Vec<u32>> = families.iter().filter(|f| f.iter().all(|i| !pool.ops[*i as usize].op.is_big())).cloned().collect();
-        GenCtx { pool, refs, usable, by_group, poison_by_group, cheap, kinds, by_kind, quick_by_kind, tl_slot_ops, families, small_families, families_by_type }
+        GenCtx { pool, refs, usable, by_group, poison_by_group, cheap, kinds, by_kind, quick_by_kind, tl_slot_ops, families, small_families, families_by_type, pump_families }
     }
 }
 
@@ -497,6 +509,33 @@ pub fn generate(g: &GenCtx, seed: u64) -> Scenario {
         sc.pct_depth = 0;
         sc.mode = "contention".into();
         return sc;
+    }
+    // deep pump (rare, expensive): one thread pushes 4^8..4^9 distinct cells through one function
+    // and then probes the first, middle and last of them with ordinary calls
+    // (a debug-like build is ~10x slower per call: fewer pumps there)
+    let pump_pct = if cfg!(debug_assertions) { 6 } else { 25 };
+    if !g.pump_families.is_empty() && rng.pct(1) && rng.pct(pump_pct) {
+        let f = &g.families[*rng.pick(&g.pump_families)];
+        let pump = f.iter().copied().find(|i| matches!(g.pool.ops[*i as usize].op, Op::Pump { .. }));
+        if let Some(pump) = pump {
+            let probes: Vec<u32> = f.iter().copied().filter(|i| *i != pump).collect();
+            let t = rng.below(sc.threads.len() as u64) as usize;
+            let mut steps: Vec<Step> = Vec::new();
+            let p = intern(&mut sc, pump);
+            steps.push(Step { op: p, repeat: 1, rekey: None, clock_jump_ms: 0 });
+            for _ in 0..rng.range(4, 12) {
+                if probes.is_empty() {
+                    break;
+                }
+                let op = intern(&mut sc, *rng.pick(&probes));
+                steps.push(Step { op, repeat: 1, rekey: None, clock_jump_ms: 0 });
+            }
+            let at = rng.below(sc.threads[t].steps.len() as u64 + 1) as usize;
+            let tail = sc.threads[t].steps.split_off(at);
+            sc.threads[t].steps.extend(steps);
+            sc.threads[t].steps.extend(tail);
+            sc.mode = "deep_pump".into();
+        }
     }
     // clock jumps (fault kind): the simulated clocks leap forward by 1 ms .. 30 days before some ops
     if rng.pct(15) {
